@@ -781,4 +781,34 @@ example : bsearch (fun (k : Int) (e : Int) => k - e) 3 [1, 3, 3, 3, 7] = some (s
     upperBound (fun (k : Int) (e : Int) => k - e) 3 [1, 3, 3, 3, 7] = some 4 ∧
     equalRun (fun (k : Int) (e : Int) => k - e) 3 [1, 3, 3, 3, 7] 2 = (1, 3) := by decide
 
+/-- Soundness of the canonical bsearch observable: on an array laid out as ISO
+requires, the run of equal elements around ANY element comparing equal to the key
+is the bracket `[lower_bound, upper_bound - 1]` - the same for every admissible
+answer.  So two correct implementations that return different equal elements
+print the same line, and a wrong answer (an element that is not equal) cannot. -/
+theorem bsearch_equal_run_canonical {κ α : Type} (cmp : κ → α → Int) (key : κ) (a : List α)
+    (hp : PartitionedBy cmp key a) (i : Nat) (hi : i < a.length) (h0 : cmp key a[i] = 0) :
+    ∃ lo up, lowerBound cmp key a = some lo ∧ upperBound cmp key a = some up ∧
+      equalRun cmp key a i = (lo, up - 1) := by
+  obtain ⟨lo, up, r, hlo, hup, _, _, hupn, hiff, _, _⟩ := bounds_bracket_equal_range cmp key a hp
+  have hin := (hiff i hi).2 h0
+  refine ⟨lo, up, hlo, hup, equalRun_eq cmp key a lo up i hupn hin.1 hin.2 ?_ ?_ ?_⟩
+  · intro j hj h1 h2; exact (hiff j hj).1 ⟨h1, h2⟩
+  · intro j hj h1 h; have := (hiff j hj).2 h; omega
+  · intro j hj h1 h; have := (hiff j hj).2 h; omega
+
+/-- in particular the line does not depend on WHICH equal element was returned -/
+theorem bsearch_equal_run_independent {κ α : Type} (cmp : κ → α → Int) (key : κ) (a : List α)
+    (hp : PartitionedBy cmp key a) (i j : Nat) (hi : i < a.length) (hj : j < a.length)
+    (h0 : cmp key a[i] = 0) (h1 : cmp key a[j] = 0) :
+    equalRun cmp key a i = equalRun cmp key a j := by
+  obtain ⟨lo, up, hlo, hup, e1⟩ := bsearch_equal_run_canonical cmp key a hp i hi h0
+  obtain ⟨lo', up', hlo', hup', e2⟩ := bsearch_equal_run_canonical cmp key a hp j hj h1
+  rw [hlo] at hlo'; rw [hup] at hup'
+  cases hlo'; cases hup'
+  rw [e1, e2]
+
+example : equalRun (fun (k : Int) (e : Int) => k - e) 3 [1, 3, 3, 3, 7] 1 = (1, 3) ∧
+    equalRun (fun (k : Int) (e : Int) => k - e) 3 [1, 3, 3, 3, 7] 3 = (1, 3) := by decide
+
 end Igris.C11
